@@ -185,6 +185,8 @@ class Option(Evaluatable[A]):
             _ = self.evaluate(options)
         elif self.default is not MISSING:
             self.default.validate(options)
+            if self.domain is not MISSING:
+                self.domain.validate(options)
         else:
             raise KeyNotFoundError(self.key, self)
 
@@ -196,31 +198,36 @@ class Option(Evaluatable[A]):
         if the default value is an Evaluatable, the keys required by the
         Evaluatable are also returned.
         """
+        # The domain is evaluated with the same options whenever the option is.
+        domain = set() if self.domain is MISSING else self.domain.keys(options)
         if dotted_key_exists(self.key, options):
             value = get_dotted_key(self.key, options)
             return {self.key}.union(
-                *(Template(text).keys(options) for text in _templated_strings(value))
+                domain,
+                *(Template(text).keys(options) for text in _templated_strings(value)),
             )
         elif self.default is not MISSING:
-            return self.default.keys(options)
+            return self.default.keys(options) | domain
         else:
             raise KeyNotFoundError(self.key, self)
 
     def explain(self, options: Optional[Options] = None) -> Set[str]:
         """Returns the keys required by the option."""
         options = options or {}
+        domain = set() if self.domain is MISSING else self.domain.explain(options)
         if dotted_key_exists(self.key, options):
             value = get_dotted_key(self.key, options)
             return {self.key}.union(
+                domain,
                 *(
                     Template(text).explain(options)
                     for text in _templated_strings(value)
-                )
+                ),
             )
         elif self.default is not MISSING:
-            return self.default.explain(options)
+            return self.default.explain(options) | domain
         else:
-            return {self.key}
+            return {self.key} | domain
 
     def __repr__(self) -> str:
         return (
